@@ -49,7 +49,7 @@ package fox
 //@   requires safety-wired: w != nil && fox.noRoute != nil && fox.noMethod != nil && fox.autoOptions != nil && fox.tsrRedirect != nil && (forall rt *Route :: {rt.hall} rt != nil ==> rt.hall != nil)
 //@   assume-at after (*Pool).Get#1 : pool-type: dyntypeIs(call_result, *cTx)
 //@   requires fresh-writer: wFinal[w] == 0 && wBody[w] == 0
-//@   modifies heap, hCalls, wFinal, wFirst, wInfo, wBody, wFlush, wHijack, hFn, hRoute, hTsr, hScope, hNParams, hReq, sbLen, unlockedLoads, released
+//@   modifies heap, hCalls, wFinal, wFirst, wInfo, wBody, wFlush, wHijack, hFn, hRoute, hTsr, hScope, hNParams, hReq, sbLen, unlockedLoads, released, poolOut
 //@   assume-at call (*cTx).reset#1 : pool-discipline: c != nil && c.params != nil && c.tsrParams != nil && c.skipNds != nil
 //@   ensures @C06 nolock: held[&fox.mu] == old(held[&fox.mu]) && lockOps[&fox.mu] == old(lockOps[&fox.mu]) && pubCount[&fox.tree] == old(pubCount[&fox.tree])
 //@   ensures @C05,C06 one-load: unlockedLoads[&fox.tree] == old(unlockedLoads[&fox.tree]) + (held[&fox.mu] ? 0 : 1)
@@ -61,6 +61,8 @@ package fox
 //@   assert-at call call#4 : @C12 live-context: !released[arg_c]
 //@   assert-at call call#5 : @C12 live-context: !released[arg_c]
 //@   assert-at call call#6 : @C12 live-context: !released[arg_c]
+//@   -- the request context goes back to the pool of the tree it was taken from, on every path
+//@   ensures @C16,C12 pool-balance: poolOut[&old(pt(fox)).ctx] == old(poolOut[&pt(fox).ctx])
 //@   ensures one-handler: hCalls == old(hCalls) + 1
 //@   ensures request: hReq == r
 //@   ensures @C08,C11,C12,C17,C13,C01 direct: old(isDirect(fox, r)) ==> hFn == old(sn(fox, r).route.hall) && hRoute == old(sn(fox, r).route) && !hTsr && hScope == RouteHandler
@@ -123,7 +125,7 @@ package fox
 //@   requires safety-args: t != nil && c.params != c.tsrParams && len(path) < 4294967295 && len(hostPort) < 4294967295
 //@   requires safety-roots: len(r) >= verb && (forall j int :: {r[j]} 0 <= j && j < len(r) ==> r[j] != nil)
 //@   requires safety-wf: heapWF()
-//@   modifies C[Params], C[skippedNodes], c.tsr, E[Param], E[skippedNode], released
+//@   modifies C[Params], C[skippedNodes], c.tsr, E[Param], E[skippedNode], released, poolOut
 //@   assert-at call lookupByDomain#1 : stripped-host: same(arg_host, netutil.StripHostPort(hostPort)) && same(arg_path, path) && arg_target == r[index] && arg_lazy == lazy
 //@   requires safety-live: !released[box(c)]
 //@   -- the walks record parameters at absolute positions: a recording lookup starts from an empty list (every reset variant empties it)
@@ -132,6 +134,7 @@ package fox
 //@   ensures leaf: n != nil ==> n.route != nil
 //@   ensures live: !released[box(c)]
 //@   ensures lazy-len: lazy ==> len(*c.params) <= old(len(*c.params))
+//@   ensures @C16,C01 pool-balance: poolOut[&t.ctx] == old(poolOut[&t.ctx])
 
 //@ -- ---------------------------------------------------------------- C06 / C16: effect clauses (call-graph closure)
 //@ effects (*Router).ServeHTTP : nolock props C06
